@@ -463,6 +463,18 @@ func (s *mkProdSpec) configureTopics(tc mkTopicConfig) {
 		tc.SetDefaultPartitions(s.defParts)
 	}
 	if len(s.overrides) > 0 {
+		// every other specification with several overrides declares them one call per topic
+		var names []string
+		for k := range s.overrides {
+			names = append(names, k)
+		}
+		sort.Strings(names)
+		if len(names) > 1 && (int(s.overrides[names[0]])+len(s.topics))%2 == 0 {
+			for _, k := range names {
+				tc.SetPartitions(map[string]int32{k: s.overrides[k]})
+			}
+			return
+		}
 		cp := map[string]int32{}
 		for k, v := range s.overrides {
 			cp[k] = v
